@@ -68,11 +68,13 @@ MESH_FAMILY = {
 }
 
 
-def disp_names(info):
+def disp_names(info, positive_only=False):
     """dispersible (1-D) scalar parameters in table order; vector parameters contribute their first two elements"""
     P = info.parameters
     out = []
     for p in P.call_parameters:
+        if positive_only and not p.default > 0:
+            continue     # a relative width about 0 is no distribution at all
         if p.name in P.pd_1d:
             # expanded vector parameters are named base+index: keep index 1, 2 only
             digits = "".join(ch for ch in p.name if ch.isdigit())
@@ -170,6 +172,8 @@ def _length_vectors(k, maxprod):
 def _trunc(par, v, which):
     """(type, npts, width, value) realising a truncation of a uniform distribution by the hard limits"""
     lo, hi = par.limits
+    if not v > 0:
+        return None      # relative widths about a non-positive centre: no truncation alternative
     if np.isfinite(lo) and v > lo:
         d = v - lo
         if which == "cut3":
@@ -364,7 +368,9 @@ def _run_mesh(case, ctx):
     r = R()
     m = build.model(case["model"])
     info = m.info
-    names = disp_names(info)[:len(case["lengths"])]
+    names = disp_names(info, positive_only=True)[:len(case["lengths"])]
+    if len(names) < len(case["lengths"]):
+        return r.ok(outcome="skipped: not enough dispersible parameters with a positive default")
     base = _defaults(info)
     spec = {n: ("gaussian", L, 0.05, 2.0) for n, L in zip(names, case["lengths"])}
     _compare(r, case, m, case.get("q", "1d"), base, spec, 0.0,
@@ -508,7 +514,9 @@ def _run_split(case, ctx):
         m = build.model(case["model"])
         info = m.info
         kernel = m.make_kernel([np.array([0.07])])
-        names = disp_names(info)[:len(lengths)]
+        names = disp_names(info, positive_only=True)[:len(lengths)]
+        if len(names) < len(lengths):
+            return r.ok(outcome="skipped: not enough dispersible parameters with a positive default")
         pars = _defaults(info)
         for n, L in zip(names, lengths):
             pars[n + "_pd"], pars[n + "_pd_n"], pars[n + "_pd_type"], pars[n + "_pd_nsigma"] = 0.1, L, "gaussian", 2.0
